@@ -6,10 +6,14 @@ import (
 	"math"
 
 	"github.com/quickfixgo/quickfix"
+
+	. "qfverif/hx"
 )
 
+func main() { Main() }
+
 func init() {
-	streams["types"] = &Stream{Gen: genTypes, Run: runTypes}
+	Register("types", &Stream{Gen: genTypes, Run: runTypes})
 }
 
 func runTypes(in Sx) Sx {
